@@ -168,7 +168,8 @@ def _payload_space(ctx, cls, exhaustive_two_octet):
                 yield G.mk(cls, i)
     else:
         # quick: classes sharing code and parameters with an earlier one get the decade neighbourhoods only
-        yield from G.own_payloads(cls, ctx.rng, ctx.scale(3000, 100000), float_points="full" if exhaustive_two_octet else "decades")
+        yield from G.own_payloads(cls, ctx.rng, ctx.scale(3000, 100000), float_points="full" if exhaustive_two_octet else "decades",
+                                  boundaries=False if ctx.quick else None)  # structure-aware boundary payloads of complex types: thorough (C10 has them in quick)
     # a few foreign payloads: must simply not be accepted
     yield DPTArray(())
     yield DPTBinary(0x3F)
